@@ -181,6 +181,7 @@ def resources(annot=False):
         'B1': mk.resource([B1()], V), 'C1': mk.resource([C1()], V),
         'BC': mk.resource([B1(), C1()], V),
         'AX': mk.resource([A1(), X1(annot)], V),      # a base and its extension in one file
+        'XY': mk.resource([X1(annot), Y1()], V),      # an extension and an extension of it in one file (no base)
     }
 
 
